@@ -47,6 +47,84 @@ def trie_shards(ops, nshards):
     return out
 
 
+def uci_part(chk, pid, wd, gs, bpath, quick, seed):
+    """Follows the engine's own book answers from the start position: position startpos moves m1..mk; go - every answer is
+    judged by UciTrace.tla against the book the specification built (membership) and the rules (legality)."""
+    from concurrent.futures import ThreadPoolExecutor
+    import uci_driver
+    import ucichecks
+    cli = build_cli()
+
+    def lan_triple(m):
+        sq = lambda t: (int(t[1]) - 1) * 8 + "abcdefgh".index(t[0]) + 1
+        return [sq(m[0:2]), sq(m[2:4]), m[4].upper() if len(m) > 4 else "."]
+
+    def one(k):
+        ev = [{"ev": "Session", "id": k, "wellformed": True, "pacing": "book-follow"}]
+        eng = uci_driver.Engine(cli)
+        moves = []
+        for ply in range(12):
+            line = "position startpos" + (" moves " + " ".join(moves) if moves else "")
+            ev.append({"ev": "In", "kind": "position", "base": "startpos", "fen": [], "pos": uci_driver.EMPTY_POS, "moves": [lan_triple(m) for m in moves], "valid": True})
+            eng.send(line)
+            eng.send(".state")
+            fen = eng.read_err_fen(25.0)
+            ev.append({"ev": "State", "fen": list(fen) if fen else [], "seen": fen is not None, "pos": uci_driver.fen_to_pos(fen) if fen else uci_driver.EMPTY_POS})
+            eng.send("isready")
+            lines, ok = eng.read_until(lambda l: l.strip() == "readyok", 25.0)
+            ev += [uci_driver.classify(l) for l in lines]
+            ev.append({"ev": "In", "kind": "go"})
+            eng.send("go depth 1")
+            lines, ok = eng.read_until(lambda l: l.startswith("bestmove"), 25.0)
+            out = [uci_driver.classify(l) for l in lines]
+            spawned = not any(o.get("kind") == "book" for o in out)
+            if spawned:
+                ev.append({"ev": "SearchStart", "fresh": True, "history_len": -1, "table_entries": -1})
+            ev += out
+            best = [l for l in lines if l.startswith("bestmove")]
+            if not ok or not best:
+                ev.append({"ev": "Hang", "after": "go", "waited_s": 25.0})
+                break
+            eng.send("isready")
+            lines, ok = eng.read_until(lambda l: l.strip() == "readyok", 25.0)
+            ev += [uci_driver.classify(l) for l in lines]
+            if spawned:
+                break
+            moves.append(best[0].split()[1])
+        ev.append({"ev": "In", "kind": "quit"})
+        eng.send("quit")
+        try:
+            status = eng.p.wait(timeout=25)
+        except Exception:
+            eng.p.kill()
+            status = -999
+        ev.append({"ev": "Exit", "status": status, "stderr": [], "wall_s": 0})
+        return ev, len(moves)
+    n = 24 if quick else 400
+    with ThreadPoolExecutor(max_workers=8) as ex:
+        rs = list(ex.map(one, range(n)))
+    paths = []
+    for i in range(0, n, max(1, n // NPROC)):
+        pth = os.path.join(wd, "bookuci_%03d.ndjson" % i)
+        with open(pth, "w") as f:
+            for ev, _ in rs[i:i + max(1, n // NPROC)]:
+                for e in ev:
+                    f.write(json.dumps(e) + "\n")
+        paths.append(pth)
+    res = tlc_many([dict(module="UciTrace", trace=pth, env={"BOOK": bpath}, xmx="3g", timeout=3000) for pth in paths])
+    chk.add_tlc(res)
+    for r in res:
+        for d in r["diags"]:
+            w = d.get("what", {})
+            if d.get("prop") == "TOOL":
+                tool_error("driver/specification mismatch: %s" % json.dumps(d))
+            if d.get("prop") == pid:
+                chk.violation("|".join([pid, str(w.get("kind")), str(w.get("pos", "")), str(w.get("mv", ""))]), "UCI: %s: %s" % (w.get("kind"), json.dumps({a: b for a, b in w.items() if a != "kind"}, sort_keys=True)),
+                              {"module": "UciTrace", "trace": r["trace"], "diag": d})
+    chk.coverage["uci_book_sessions"] = {"sessions": n, "book_answers_followed": sum(m for _, m in rs)}
+    chk.coverage["traces_validated_against_impl"] = chk.coverage.get("traces_validated_against_impl", 0) + len(paths)
+
+
 def check_book(pid, tier, seed):
     from check import model_check
     chk = Check(pid, tier, seed, "model_checking")
@@ -92,6 +170,20 @@ def check_book(pid, tier, seed):
     for l in open(mis):
         m = json.loads(l)
         chk.violation("|".join([pid, m["kind"], m["fen"]]), "%s: %s" % (m["kind"], json.dumps({k: v for k, v in m.items() if k not in ("prop", "kind")}, sort_keys=True)), {"replay_case": m})
+    # the same relation through the UCI front end: along book games `position startpos moves ...; go` must be answered from
+    # the book with a recorded move while the position is a book position, and searched once it is not
+    book_rel = {}
+    for o in outs:
+        for l in open(o):
+            if l.startswith('<<"GEN"'):
+                g = json.loads(l[len('<<"GEN", "'):-len('">>') - 1].replace('\\"', '"').replace("\\\\", "\\"))
+                if g.get("kind") == "entry":
+                    m = g["mv"]
+                    book_rel.setdefault(g["key"], set()).add(m[:4] + (m[6].lower() if m[6] != "." else ""))
+    bpath = os.path.join(wd, "book_rel.json")
+    with open(bpath, "w") as f:
+        json.dump({k: sorted(v) for k, v in book_rel.items()}, f)
+    uci_part(chk, pid, wd, gs, bpath, quick, seed)
     for j in jobs:
         try:
             os.remove(j["stdout_path"])
